@@ -2,6 +2,9 @@ module verif
 
 go 1.23
 
-require github.com/emicklei/go-restful/v3 v3.12.0
+require (
+	github.com/anishathalye/porcupine v1.3.0
+	github.com/emicklei/go-restful/v3 v3.12.0
+)
 
 replace github.com/emicklei/go-restful/v3 => /repo
